@@ -191,7 +191,7 @@ def _admissible_table(db, rep):
     bad, cases = None, 0
     try:
         sides = [(1, 11), (1, 99), (99, 11), (99, 99), (2, 12)]      # uid 1,2 in operand 1; 11,12 in operand 2; 99 foreign
-        for k in (0, 1, 2):
+        for k in ((0, 1, 2, 3) if rep.tier == 'thorough' else (0, 1, 2)):
             for table in itertools.product(sides, repeat=k):
                 for equatable in (True, False):
                     cases += 1
